@@ -22,6 +22,9 @@ EXTENDS VerifCommon, SequencesExt
 
 CONSTANTS MaxS,            \* sessions created per behaviour
           CDNConfigured,   \* hlsCDNSecret set?
+          TrustedProxy,    \* TRUE: hlsTrustedProxies holds the peer all requests come through (the client IP is the
+                           \* forwarded one); FALSE: the list is empty: the client IP is the TCP peer, whatever
+                           \* X-Forwarded-For / X-Real-IP headers the request carries
           WideIPs,         \* FALSE: sessions are opened from 4 of the 6 addresses only (quick tier bound)
           ExpireAny        \* FALSE: only session 1 may expire (generation bound: expiry costs 10 s of wall time)
 
@@ -33,9 +36,15 @@ Ghost  == "ghost"                    \* a path without stream
 \* client addresses (forwarded by the trusted proxy). "The same IP" is equality of addresses: the set
 \* holds addresses whose text is a prefix of another's (10.0.0.1 / 10.0.0.12 / 10.0.0.123,
 \* 2001:db8::1 / 2001:db8::12), inside and outside the network of the IP-restricted user
-AllIPs == {"10.0.0.1", "10.0.0.12", "10.0.0.123", "10.0.1.5", "2001:db8::1", "2001:db8::12"}
-\* the addresses sessions are opened from in the bounded model (requests are judged for all of AllIPs)
-IPs    == IF WideIPs THEN AllIPs ELSE {"10.0.0.1", "10.0.0.12", "10.0.1.5", "2001:db8::12"}
+FwdIPs == {"10.0.0.1", "10.0.0.12", "10.0.0.123", "10.0.1.5", "2001:db8::1", "2001:db8::12"}
+\* real TCP peers (distinct loopback addresses) used when no proxy is trusted
+Peers  == {"127.0.0.1", "127.0.0.2", "::1"}
+\* the client addresses requests are judged for: "the IP" of the statement is the peer's unless the peer
+\* is a trusted proxy, in which case it is the forwarded address
+AllIPs == IF TrustedProxy THEN FwdIPs ELSE Peers
+\* the addresses sessions are opened from in the bounded model
+IPs    == IF ~TrustedProxy THEN Peers
+          ELSE IF WideIPs THEN FwdIPs ELSE {"10.0.0.1", "10.0.0.12", "10.0.1.5", "2001:db8::12"}
 Creds  == {"alice", "carol", "dave", "erin", "bad", "none"}
 Kinds  == {"playlist", "segment", "part"}
 \* Authorization header of a request:
@@ -50,7 +59,7 @@ Auths  == {"none", "basic"} \cup BearerToks
 \* With no secret configured NO Bearer value carries it. The statement is silent about the case
 \* of the scheme: a lower-case scheme with the right secret is left open (may be served).
 CarriesCDNSecret(cdnConf, auth) == cdnConf /\ auth \in {"cdn", "lowercdn"}
-BearerIPs == {"10.0.0.1", "10.0.1.5"}
+BearerIPs == IF TrustedProxy THEN {"10.0.0.1", "10.0.1.5"} ELSE {"127.0.0.1", "127.0.0.2"}
 Places == {"cookie", "query"}
 
 \* configured users (action read unless stated)
@@ -72,7 +81,7 @@ AdmitF(p, c, ip) ==
         AI!EntryF(Users[i].ips = <<>>, IPok(Users[i], ip), AI!GrantsLo(Users[i], r),
                   AI!IsAny(Users[i].user), AI!CredMatch(Users[i], r))
 \* (a constant table: TLC evaluates it once)
-AdmitTab == [x \in (Paths \cup {Ghost}) \X Creds \X AllIPs |-> AdmitF(x[1], x[2], x[3])]
+AdmitTab == [x \in (Paths \cup {Ghost}) \X Creds \X (FwdIPs \cup Peers) |-> AdmitF(x[1], x[2], x[3])]
 Admit(p, c, ip) == AdmitTab[<<p, c, ip>>]
 
 \* ------------------------------------------------------------------ layer 2: the statement
